@@ -138,3 +138,9 @@ PROPS["C10"] = dict(level="exploration",
 
 # the task<> part of C04 (task.hpp is one of its anchors): the coroutine programs of C10 run with the stop-callback bookkeeping oracles of the harness stop source
 PROPS["C04"]["units"].append(Unit("c10_tasks", "harness/c10_tasks.cpp", cfg="p20", max_size=100, quick=(15, 300000), thorough=(240, 20000000)))
+
+PROPS["C14"] = dict(level="exploration",
+    units=[Unit("c14_epoll", "harness/c14_epoll.cpp", cfg="d17", max_size=120, pin=True, shards=8,
+                quick=(30, 400000), thorough=(480, 20000000))],
+    assumptions=_DS_ASSUME + ["the kernel side (pipe, eventfd, timerfd, epoll) is real and not under schedule control; epoll_wait is hooked so that the loop thread never sleeps in the kernel while another thread can run",
+                              "syscall failures and short transfers are injected at the readv/writev call sites of the library (generated index and errno)"])
